@@ -115,7 +115,9 @@ def parse_spec(path):
                 cur_sec = (head, int(rest[0]), opts)
             elif head in ('before', 'after'):
                 flush()
-                if toks[1] == 'loop':
+                if toks[1] == 'loop' and len(toks) >= 5 and toks[3] == 'stmt':
+                    cur_sec = (head + '_loopstmt', (int(toks[2]), int(toks[4])), {})
+                elif toks[1] == 'loop':
                     cur_sec = (head + '_loop', int(toks[2]), {})
                 elif toks[1] == 'top':
                     cur_sec = (head + '_top', int(toks[2]), {})
@@ -261,6 +263,14 @@ def weave_fn(fs: FnSpec, text: str, sig_brace: int, shim_table):
             lp = need_loop(arg)
             lint_ghost_block(name, 'after%d' % arg, stext)
             edits.append((lp['close'] + 1, order, block(name, 'after%d' % arg, stext)))
+        elif kind in ('after_loopstmt', 'before_loopstmt'):
+            lp = need_loop(arg[0])
+            stmts = top_statements(m, lp['open'])
+            if arg[1] < 1 or arg[1] > len(stmts):
+                raise WeaveError('lost anchor: %s loop %d has %d body statements, contract refers to statement %d' % (name, arg[0], len(stmts), arg[1]))
+            lint_ghost_block(name, kind, stext)
+            a0, b0 = stmts[arg[1] - 1]
+            edits.append((b0 if kind == 'after_loopstmt' else a0, order, block(name, '%s%d_%d' % (kind, arg[0], arg[1]), stext)))
         elif kind in ('after_top', 'before_top'):
             tops = top_statements(m, sig_brace)
             if arg < 1 or arg > len(tops):
